@@ -157,15 +157,29 @@ def parseMap (s : String) : Option (List (Nat × Nat)) :=
 def parseIds (s : String) : Option (List Nat) :=
   if s == "-" then some [] else (s.splitOn ",").mapM String.toNat?
 
-/-- one attempt: `id=err,…` with the error in C16's prefix notation, tokens joined by `~` -/
-def parsePlan (s : String) : Option (List (Nat × Err)) :=
-  if s == "-" then some [] else
-  (s.splitOn ",").mapM (fun e => match e.splitOn "=" with
+/-- one attempt: items joined by `,`; `id=err` (refused at RCPT), `S=err` (Start), `B=err` (Body of
+an atomic target), `C=err` (Commit), `b<id>=err` (per-recipient status of a PartialDelivery target);
+the error in C16's prefix notation, tokens joined by `~` -/
+structure RawPlan where
+  start : Option Err := none
+  rcpt : List (Nat × Err) := []
+  body : Option Err := none
+  bodyRc : List (Nat × Err) := []
+  commit : Option Err := none
+
+def parsePlan (s : String) : Option RawPlan :=
+  if s == "-" then some {} else
+  (s.splitOn ",").foldlM (fun (pl : RawPlan) e => match e.splitOn "=" with
     | [i, er] =>
       match Driver.C16.parseErr (er.splitOn "~") with
-      | some (err, []) => do pure (← i.toNat?, err)
+      | some (err, []) =>
+        if i == "S" then some { pl with start := some err }
+        else if i == "B" then some { pl with body := some err }
+        else if i == "C" then some { pl with commit := some err }
+        else if i.startsWith "b" then do pure { pl with bodyRc := pl.bodyRc ++ [(← (i.drop 1).toNat?, err)] }
+        else do pure { pl with rcpt := pl.rcpt ++ [(← i.toNat?, err)] }
       | _ => none
-    | _ => none)
+    | _ => none) {}
 
 def assoc {β} (l : List (Nat × β)) (k : Nat) : Option β := (l.find? (fun p => p.1 == k)).map (·.2)
 
@@ -189,30 +203,72 @@ def qevStr : QEv → Option String
   | .removed => some "removed"
   | .requeue _ => none
 
-def runQ (cfg : Cfg) (maxTries : Nat) (plans : List (List (Nat × Err))) (failAt : Option Stage) :
+def RawPlan.plan (pl : RawPlan) : APlan :=
+  { start := pl.start, rcpt := assoc pl.rcpt, body := pl.body, bodyRc := assoc pl.bodyRc, commit := pl.commit }
+
+/-- the rewrite map as the downstream target sees it in `Start`: `k>v` for the known ids -/
+def omapStr (ids : List Nat) (m : Nat → Nat) : String :=
+  ",".intercalate ((ids.filter (fun i => m i != 0)).map (fun i => s!"{i}>{m i}"))
+
+def runQ (cfg : Cfg) (maxTries : Nat) (kind : Kind) (ids : List Nat) (plans : List RawPlan) (failAt : Option Stage) :
     Nat → Nat → QMeta → List String
   | 0, _, _ => ["FUEL"]
   | fuel + 1, i, q =>
-    let now : Nat → Option Err := fun r => assoc ((plans[i]?).getD []) r
+    let pl : RawPlan := (plans[i]?).getD {}
+    let now : Nat → Option Err := deliverErrs kind pl.plan q.to
     let (next, evs) := attempt cfg maxTries now failAt q
-    let here := ("try:" ++ natList q.to) :: evs.filterMap qevStr
+    -- the scripted target records the recipients it is OFFERED: none when its Start fails
+    let offered := if pl.start.isSome then [] else q.to
+    let here := ("try:" ++ natList offered ++ "@" ++ omapStr ids q.msg.origRcpts) :: evs.filterMap qevStr
     match next with
     | none => here
-    | some q' => here ++ runQ cfg maxTries plans failAt fuel (i + 1) q'
+    | some q' => here ++ runQ cfg maxTries kind ids plans failAt fuel (i + 1) q'
+
+def parseRules (s : String) : Option (List (Nat × List Nat)) :=
+  if s == "-" then some [] else
+  (s.splitOn ",").mapM (fun e => match e.splitOn ">" with
+    | [k, v] => do pure (← k.toNat?, ← (v.splitOn "+").mapM String.toNat?)
+    | _ => none)
+
+/-- the pipeline(s) in front of the queue: `<nested>/<given>/<g>/<s>/<r>/<n>` -/
+structure Front where
+  outer : Rules
+  inner : Option Rules
+  given : List Nat
+  ids : List Nat         -- every id mentioned
+
+def parseFront (s : String) : Option Front :=
+  match s.splitOn "/" with
+  | [nested, given, g, s_, r, n] => do
+    let given ← if given == "-" then pure [] else (given.splitOn "+").mapM String.toNat?
+    let g ← parseRules g
+    let s_ ← parseRules s_
+    let r ← parseRules r
+    let n ← parseRules n
+    let idsOf (l : List (Nat × List Nat)) : List Nat := l.flatMap (fun p => p.1 :: p.2)
+    let none3 : Nat → Option (List Nat) := fun _ => none
+    pure { outer := ⟨assoc g, assoc s_, assoc r⟩,
+           inner := if nested == "1" then some ⟨assoc n, none3, none3⟩ else none,
+           given := given, ids := given ++ idsOf g ++ idsOf s_ ++ idsOf r ++ idsOf n }
+  | _ => none
+
+def kindOf : String → Option Kind
+  | "a" => some .atomic | "p" => some .partialD | _ => none
 
 def handleQ : List String → Option String
-  | [utf8, rtls, pipeline, mt, failAt, from_, ofrom, rcvd, hdr, host, domain, msgid, names, omap, rcpts, plans, tab, _truth] => do
+  | [utf8, rtls, pipeline, mt, failAt, from_, ofrom, rcvd, hdr, host, domain, msgid, names, omap, rcpts, plans, tab, kind, front, _truth] => do
     let names ← parseNames names
     let omap ← parseMap omap
     let rcpts ← parseIds rcpts
     let plans ← (plans.splitOn ";").mapM parsePlan
     let t ← parseTab tab
     let failAt ← stageOf failAt
+    let kind ← kindOf kind
     let from_ ← from_.toNat?
     let ofrom ← ofrom.toNat?
     let known (i : Nat) : Bool := i == 0 || (assoc names i).isSome
     if !(known from_ && known ofrom && rcpts.all known && omap.all (fun p => known p.1 && known p.2)
-         && plans.all (fun p => p.all (fun e => known e.1))) then none else
+         && plans.all (fun p => p.rcpt.all (fun e => known e.1) && p.bodyRc.all (fun e => known e.1))) then none else
     if names.any (fun p => p.1 == 0) then none else
     let name : Nat → S := fun i => (assoc names i).getD []
     let host ← unhexRunes? host
@@ -224,7 +280,17 @@ def handleQ : List String → Option String
                          origRcpts := fun r => (assoc omap r).getD 0, utf8 := utf8 == "1", requireTLS := rtls == "1",
                          rcvdFrom := rcvd, rcptErrs := fun _ => none, hdr := ← hdr.toNat? }
     let maxTries ← mt.toNat?
-    pure (" | ".intercalate (runQ cfg maxTries plans failAt (maxTries + 2) 0 ⟨rcpts, fun _ => 0, m⟩))
+    let ids := names.map (·.1)
+    -- the message as the queue holds it: handed over directly with a prepared map, or through
+    -- the pipeline(s) of the `front` token
+    let q0 ← if front == "-" then pure (some (⟨rcpts, fun _ => 0, m⟩ : QMeta)) else do
+      let f ← parseFront front
+      if !(f.ids.all (fun i => i != 0 && known i)) || !omap.isEmpty then none else
+      let q := viaFront f.outer f.inner f.given m
+      pure (if q.to == rcpts then some q else none)
+    match q0 with
+    | none => pure "front-mismatch"
+    | some q => pure (" | ".intercalate (runQ cfg maxTries kind ids plans failAt (maxTries + 2) 0 q))
   | _ => none
 
 def handle : List String → String
